@@ -389,6 +389,57 @@ def C12_nchw_symbolic_dims():
     return True, "flagged == NCHW(plain) for symbolic H/W/C"
 
 
+def C16_reverse_scan_is_loud():
+    """every reverse scan (with/without xs, with/without stacked outputs) either raises at export
+    time or exports a model that agrees with JAX"""
+    jax, jnp = _jax()
+    x0 = np.arange(3, dtype=np.float32)
+    xs = np.arange(12, dtype=np.float32).reshape(4, 3)
+
+    def no_xs_with_ys(c):
+        return jax.lax.scan(lambda c, _: (c * 2.0 + 1.0, c), c, None, length=4, reverse=True)
+
+    def no_xs_carry_only(c):
+        return jax.lax.scan(lambda c, _: (c + 1.0, None), c, None, length=4, reverse=True)[0]
+
+    def with_xs(c, xs):
+        return jax.lax.scan(lambda c, x: (c + x, c * x), c, xs, reverse=True)
+
+    for name, f, spec, arrs in (("reverse scan without xs, stacked ys", no_xs_with_ys, [(3,)], [x0]),
+                                ("reverse scan without xs, carry only", no_xs_carry_only, [(3,)], [x0]),
+                                ("reverse scan with xs", with_xs, [(3,), (4, 3)], [x0, xs])):
+        ok, detail = _cmp(f, spec, arrs)
+        if not ok:
+            return False, f"{name}: exported without an error but {detail}"
+    return True, "reverse scans are rejected or exported correctly"
+
+
+def C16_unbound_output_is_loud():
+    """assert_eqn_outputs_bound must raise for an equation whose output var has no connected value"""
+    from types import SimpleNamespace
+    from jax2onnx.converter import output_binding as ob
+
+    class Var:
+        pass
+    v = Var()
+    ctx = SimpleNamespace(builder=SimpleNamespace(_var2val={}, inputs=[], initializers=[], nodes=[]))
+    eqn = SimpleNamespace(outvars=[v])
+    try:
+        ob.assert_eqn_outputs_bound(ctx, eqn, primitive_name="p", eqn_index=0)
+    except RuntimeError:
+        pass
+    else:
+        return False, "an equation with an unbound output var was accepted"
+    import onnx_ir as ir
+    val = ir.Value(name="floating")
+    ctx.builder._var2val[v] = val
+    try:
+        ob.assert_eqn_outputs_bound(ctx, eqn, primitive_name="p", eqn_index=0)
+    except RuntimeError:
+        return True, "unbound and disconnected outputs are rejected"
+    return False, "an output bound to a value that no node/input/initializer defines was accepted"
+
+
 def C05_output_order_family():
     """results (a4d, b4d, c1d, d4d) under every ordered subset of outputs_as_nchw over the 4-D leaves:
     output k must be leaf k (NCHW-transposed iff flagged)."""
@@ -673,6 +724,7 @@ ALL = {
     "D15": D15_forest_fold_stale_shape,
     "D16": D16_nchw_input_dtype_matches_plain,
     "C05_output_order_family": C05_output_order_family,
+    "C16_reverse_scan_is_loud": C16_reverse_scan_is_loud, "C16_unbound_output_is_loud": C16_unbound_output_is_loud,
     "C12_nchw_symbolic_dims": C12_nchw_symbolic_dims,
 }
 
